@@ -3,7 +3,7 @@ C15 — the file system stays structurally consistent under any operation sequen
 Property theorems; the model is `Model/FileSystem.lean`, the invariant `Inv`/`FolderInv` and the per-operation
 preservation lemmas are in `Lemmas/FileSystem{Basics,Folder,State,Ops}.lean`.
 -/
-import PrimaiteModel.Lemmas.FileSystemOps
+import PrimaiteModel.Lemmas.FileSystemAnswers
 import PrimaiteModel.Lemmas.FileSystemSnapshot
 import PrimaiteModel.Gen.FileSystem
 namespace Primaite.FileSystem
@@ -55,6 +55,192 @@ example :
     s.folders.map (·.name) = ["root", "fa", "fb"] ∧ s.deletedFolders.map (·.name) = ["fb"] ∧
     (s.folders.map (fun g => (g.files.map (·.id), g.deletedFiles.map (·.id)))) = [([], []), ([2], [3]), ([], [])] := by
   decide
+
+/-! ### nothing raises -/
+
+/-- In a state satisfying `Inv` no file-system request answers with an exception: the root folder exists for
+`create_file`'s default, and no request route dangles. -/
+theorem C15_never_raises {s : State} (h : Inv s) (op : Op) : (step s op).2 ≠ .raised := by
+  cases op with
+  | createFile F x force =>
+    simp only [step]
+    unfold createFile
+    by_cases hc : (!force && (getFile s (if F = "" then "root" else F) x).isSome) = true
+    · rw [if_pos hc]; simp
+    · rw [if_neg hc]
+      have htarget : ∃ s1 g, createFileTarget s F = (s1, some g) := by
+        unfold createFileTarget
+        by_cases hF : F = ""
+        · obtain ⟨r, hr, hrn⟩ := h.root
+          have := getFolder_of_live h hr
+          rw [hrn] at this
+          simp only [hF, ne_eq, not_true_eq_false, if_false, this]
+          exact ⟨s, r, rfl⟩
+        · simp only [ne_eq, hF, not_false_eq_true, if_true]
+          cases getFolder s F with
+          | some g => exact ⟨s, g, rfl⟩
+          | none => exact ⟨_, _, rfl⟩
+      obtain ⟨s1, g, ht⟩ := htarget
+      rw [ht]
+      simp only
+      unfold createFileIn
+      cases g.getFile x <;> simp
+  | createFolder F => simp [step]
+  | deleteFile F x =>
+    simp only [step]; unfold deleteFile
+    split
+    · simp
+    · cases getFolder s F with
+      | none => simp
+      | some g => simp only; cases g.getFile x <;> simp
+  | deleteFolder F =>
+    simp only [step]; unfold deleteFolder
+    cases getFolder s F with
+    | none => simp
+    | some g => simp only; split <;> simp
+  | restoreFile F x =>
+    simp only [step]; unfold restoreFile
+    cases getFolder s F with
+    | none => simp
+    | some g =>
+      simp only
+      cases g.getFile x true with
+      | none => simp
+      | some f => exact ofBool_ne_raised _
+  | restoreFolder F =>
+    simp only [step]; unfold restoreFolder
+    cases getFolder s F true <;> simp
+  | access F x => exact ofBool_ne_raised _
+  | folderVerb F v =>
+    simp only [step]
+    rcases viaFolder_out h F (fun g => (g.verb v).map (fun (g', b) => (g', ofBool b))) with ⟨_, e⟩ | ⟨g, _, _, ⟨_, e⟩ | ⟨g', o, hk, e⟩⟩
+    · rw [e]; simp
+    · rw [e]; simp
+    · rw [e]
+      cases hv : g.verb v with
+      | none => simp [hv] at hk
+      | some p =>
+        simp only [hv, Option.map_some, Option.some.injEq, Prod.mk.injEq] at hk
+        rw [← hk.2]; exact ofBool_ne_raised _
+  | folderDelete F x =>
+    simp only [step]
+    rcases viaFolder_out h F (fun g => let (g', b) := g.removeFileByName x; some (g', ofBool b)) with
+      ⟨_, e⟩ | ⟨g, _, _, ⟨_, e⟩ | ⟨g', o, hk, e⟩⟩
+    · rw [e]; simp
+    · rw [e]; simp
+    · rw [e]
+      simp only [Option.some.injEq, Prod.mk.injEq] at hk
+      rw [← hk.2]; exact ofBool_ne_raised _
+  | fileVerb F x v =>
+    simp only [step]
+    rcases viaFolder_out h F (fun g => some (g.fileRequest x v)) with ⟨_, e⟩ | ⟨g, hgm, _, ⟨_, e⟩ | ⟨g', o, hk, e⟩⟩
+    · rw [e]; simp
+    · rw [e]; simp
+    · rw [e]
+      simp only [Option.some.injEq] at hk
+      have := fileRequest_out_ne_raised (h.folder g (Or.inl hgm)).1 x v
+      rw [hk] at this
+      exact this
+  | fsFileVerb F x v =>
+    simp only [step]; unfold fsFileVerb
+    cases getFolder s F with
+    | none => simp
+    | some g =>
+      simp only
+      cases g.getFile x with
+      | none => simp
+      | some f =>
+        simp only
+        cases f.verb v with
+        | none => simp
+        | some p => exact ofBool_ne_raised _
+  | preTick => simp [step]
+  | tick => simp [step]
+
+/-- Along any operation sequence from a fresh file system, no answer is an exception. -/
+theorem C15_never_raises_run (d : Option Int) (ops : List Op) : Out.raised ∉ (run (init d) ops).2 := by
+  suffices ∀ s, Inv s → Out.raised ∉ (run s ops).2 from this _ (C15_inv_init d)
+  induction ops with
+  | nil => intro s _; simp [run]
+  | cons op ops ih =>
+    intro s h
+    simp only [run, List.mem_cons, not_or]
+    exact ⟨fun e => C15_never_raises h op e.symm, ih _ (C15_inv_step h op)⟩
+
+/-! ### creating what already exists is refused or a no-op -/
+
+/-- The structural content of a folder / of the file system: everything except request routes, timers and counters. -/
+def Folder.core (g : Folder) : Nat × Name × Bool × List File × List File :=
+  (g.id, g.name, g.deleted, g.files, g.deletedFiles)
+def State.core (s : State) : List (Nat × Name × Bool × List File × List File) × List (Nat × Name × Bool × List File × List File) :=
+  (s.folders.map Folder.core, s.deletedFolders.map Folder.core)
+
+/-- Creating a folder whose name is live answers `success` and changes nothing structural (it only re-applies the
+configured restore duration); with no configured duration the state is literally unchanged. -/
+theorem C15_create_existing_folder_noop {s : State} (h : Inv s) {g : Folder} (hg : g ∈ s.folders) :
+    (step s (.createFolder g.name)).2 = .success ∧ (step s (.createFolder g.name)).1.core = s.core ∧
+    (s.defaultRestore = none → (step s (.createFolder g.name)).1 = s) := by
+  simp only [step]
+  rw [createFolder_eq, getFolder_of_live h hg]
+  simp only
+  obtain ⟨f1, f2, f3, f4, f5, _, _⟩ := setDur_fields s g
+  have hfold : dictSet Folder.id s.folders (setDur s g) =
+      s.folders.map (fun y => if y.id == g.id then setDur s g else y) := by
+    unfold dictSet
+    have : s.folders.any (fun y => y.id == (setDur s g).id) = true := by
+      simp only [List.any_eq_true, beq_iff_eq]; exact ⟨g, hg, f1.symm⟩
+    rw [if_pos this, f1]
+  refine ⟨by trivial, ?_, ?_⟩
+  · unfold State.core
+    simp only [hfold, List.map_map, Prod.mk.injEq, and_true]
+    apply List.map_congr_left
+    intro a ha
+    by_cases hk : a.id = g.id
+    · have := eq_of_key_eq Folder.id h.liveIds ha hg hk
+      subst this
+      simp [Folder.core, f1, f2, f3, f4, f5]
+    · simp [hk]
+  · intro hd
+    have : setDur s g = g := by unfold setDur; rw [hd]
+    rw [this, dictSet_self Folder.id h.liveIds hg]
+
+/-- Creating a file whose name is live in the target folder: unforced, the request is refused and nothing changes;
+forced, it answers `success` and nothing structural changes (same files, same uuids; only the creation counter and
+the route registration move). `F = ""` addresses the root folder. -/
+theorem C15_create_existing_file_refused_or_noop {s : State} (h : Inv s) {g : Folder} {f : File} (F : Name)
+    (hg : g ∈ s.folders) (hF : g.name = if F = "" then "root" else F) (hf : f ∈ g.files) :
+    step s (.createFile F f.name false) = (s, .failure) ∧
+    (step s (.createFile F f.name true)).2 = .success ∧ (step s (.createFile F f.name true)).1.core = s.core := by
+  have gi := h.folder g (Or.inl hg)
+  have hgf : getFolder s (if F = "" then "root" else F) = some g := by rw [← hF]; exact getFolder_of_live h hg
+  have hff : g.getFile f.name = some f := getFile_of_live gi.1 hf
+  have hlook : getFile s (if F = "" then "root" else F) f.name = some f := by
+    unfold getFile; rw [hgf]; exact hff
+  have htarget : createFileTarget s F = (s, some g) := by
+    unfold createFileTarget
+    by_cases hFe : F = ""
+    · simp only [hFe, ne_eq, not_true_eq_false, if_false]
+      rw [hFe] at hgf; simp only [if_true] at hgf; rw [hgf]
+    · simp only [ne_eq, hFe, not_false_eq_true, if_true]
+      simp only [hFe, if_false] at hgf; rw [hgf]
+  refine ⟨?_, ?_, ?_⟩
+  · simp [step, createFile, hlook]
+  · simp [step, createFile, htarget, createFileIn, hff]
+  · simp only [step, createFile, Bool.not_true, Bool.false_and, Bool.false_eq_true, if_false, htarget, createFileIn, hff]
+    unfold State.core updFolder
+    simp only [List.map_map, Prod.mk.injEq]
+    constructor
+    · apply List.map_congr_left
+      intro a ha
+      by_cases hk : a.id = g.id
+      · have := eq_of_key_eq Folder.id h.liveIds ha hg hk
+        subst this
+        simp [Folder.core, Folder.addFile, dictSet_self File.id gi.1.liveIds hf]
+      · simp [hk]
+    · apply List.map_congr_left
+      intro a ha
+      have hk : a.id ≠ g.id := fun e => h.disjoint g hg a ha e.symm
+      simp [hk]
 
 /-! ### translator tie: the tables regenerated from the source agree with what the model assumes -/
 
